@@ -30,6 +30,25 @@ FOCUS = {
  'C16': ('recover_wal_records in src/db.rs, maybe_reuse_manifest in src/versioning/version_set.rs', 'src/logs.rs'),
  'C17': ('open / destroy_database / Drop in src/db.rs', 'lock handling in src/fs/fs_disk.rs and src/fs/fs_mem.rs'),
 }
+FOCUS_G = {
+ 'C01': ('src/key.rs (InternalKey ordering, LookupKey / conversions), src/utils/bytes.rs', 'DB::get / get_snapshot paths in src/db.rs, src/versioning/version.rs (update_stats, finalize), src/utils/cache.rs (LRU eviction / lookups)'),
+ 'C02': ('src/batch.rs (serialisation), src/compaction/worker.rs (compact_memtable / install_compaction_results ordering)', 'src/versioning/version_manifest.rs (edit codec), src/versioning/file_metadata.rs, src/fs/fs_mem.rs (rename / remove / list_dir)'),
+ 'C03': ('get_snapshot / release_snapshot in src/db.rs, src/snapshots.rs, src/utils/linked_list.rs', 'the drop rules of compact_tables in src/compaction/worker.rs, src/memtable.rs (iterator)'),
+ 'C04': ('src/memtable.rs (SkipListMemTableIter), src/tables/block.rs (BlockIter next / prev / seek_to_last)', 'src/tables/table.rs (TwoLevelIterator next / prev / skip_empty_*), CachingIterator in src/iterator.rs'),
+ 'C05': ('make_room_for_write / set_wal / memtable rotation in src/db.rs, src/compaction/worker.rs (compact_memtable)', 'get_snapshot / release_snapshot / get_descriptor in src/db.rs, src/utils/cache.rs (LRU shards)'),
+ 'C06': ('apply_changes / apply_batch_to_memtable in src/db.rs, src/writers.rs', 'DB::new_iterator / get_snapshot in src/db.rs, src/iterator.rs (sequence bound handling)'),
+ 'C07': ('src/compaction/worker.rs (compact_tables drop rules, install_compaction_results), src/compaction/state.rs', 'src/versioning/version_set.rs (pick_compaction, compact_range, compaction pointers), src/versioning/file_metadata.rs'),
+ 'C08': ('src/compaction/worker.rs (error handling of compact_memtable / compact_tables / coordinate_compaction), DB::set_bad_database_state users', 'src/tables/table_builder.rs (write_block / emit_block_to_disk), DB::build_table_from_iterator, src/fs/fs_mem.rs'),
+ 'C09': ('src/compaction/worker.rs (compaction_task / scheduling / thread loop), DB::maybe_schedule_compaction', 'get_descriptor / release_snapshot / compact_range in src/db.rs, src/versioning/version_builder.rs (assertions)'),
+ 'C10': ('src/compaction/worker.rs (compact_tables output metadata), src/compaction/state.rs', 'src/versioning/version.rs (finalize, debug summaries / descriptors), src/versioning/version_set.rs (write_snapshot, recover)'),
+ 'C11': ('src/table_cache.rs, src/compaction/worker.rs (cleanup_compaction / install_compaction_results)', 'src/file_names.rs (parsing of file names), destroy_database in src/db.rs'),
+ 'C12': ('BlockRecord serialisation / parsing and src/utils/crc.rs', 'LogReader::read_physical_record / LogReader::new, LogWriter::append (fragment type selection)'),
+ 'C13': ('src/tables/block_builder.rs, src/tables/block.rs (deserialize_entries / restart offsets)', 'src/tables/footer.rs, src/tables/block_handle.rs, src/tables/table_builder.rs (index entries, write_block), src/utils/bytes.rs'),
+ 'C14': ('src/tables/filter_block_builder.rs, src/tables/table_builder.rs (finalize: filter / metaindex blocks)', 'src/tables/filter_block.rs (offsets, base lg), Table::open / Table::get filter handling, hash function in src/filter_policy.rs'),
+ 'C15': ('src/logs.rs (BlockRecord::try_from, read_physical_record), src/utils/crc.rs', 'src/tables/block.rs (BlockReader::new on damaged bytes), src/tables/footer.rs, src/versioning/version_manifest.rs (decoder)'),
+ 'C16': ('src/logs.rs (LogReader end-of-file handling, LogWriter::new)', 'VersionSet::recover / maybe_reuse_manifest in src/versioning/version_set.rs, DB::recover_unrecorded_logs'),
+ 'C17': ('DB::open / DB::recover ordering in src/db.rs, src/fs/traits.rs (FileLock)', 'destroy_database in src/db.rs, src/fs/fs_disk.rs (TmpFileSystem root handling, lock_file)'),
+}
 TASK = """# Task
 
 You are helping to evaluate a verification effort for the Rust crate `raindb` (a LevelDB-style LSM-tree key-value store).
@@ -89,5 +108,5 @@ for pid in (want or sorted(props)):
         os.makedirs(out, exist_ok=True)
         subprocess.run(['git', '-C', '/repo', 'worktree', 'remove', '--force', wt], capture_output=True)
         subprocess.run(['git', '-C', '/repo', 'worktree', 'add', '--detach', wt, 'HEAD'], check=True, capture_output=True)
-        open(base + '/TASK.md', 'w').write(TASK.format(wt=wt, out=out, tgt=tgt, title=p['title'], statement=p['statement'], pid=pid, flavour=FLAVOUR[k], focus=FOCUS[pid][int(k) - 1] if rnd >= 'f' else 'any file the property depends on'))
+        open(base + '/TASK.md', 'w').write(TASK.format(wt=wt, out=out, tgt=tgt, title=p['title'], statement=p['statement'], pid=pid, flavour=FLAVOUR[k], focus=(FOCUS_G if rnd >= 'g' else FOCUS)[pid][int(k) - 1] if rnd >= 'f' else 'any file the property depends on'))
         print(sid, base + '/TASK.md')
